@@ -198,6 +198,17 @@ func c14FlagCases() []c14Case {
 		ext("extreme-mapping", "balance", "--color=false", "-m", n+",.", "j.knut")
 		ext("extreme-mapping", "balance", "--color=false", "-m", "1:"+n+",.", "j.knut")
 	}
+	// small inputs that must not cost more than linear time and memory: an account name of
+	// 30 000 segments (60 KB), 20 files of two lines each including the next one twice
+	// (2^20 paths through 21 files), a device file as include target
+	big := map[string]string{"deep.knut": "2000-01-01 open Assets" + strings.Repeat(":a", 30000) + "\n", "zero.knut": "include \"" + strings.Repeat("../", 16) + "dev/zero\"\n"}
+	for i := 0; i < 20; i++ {
+		big[fmt.Sprintf("l%d.knut", i)] = strings.Repeat(fmt.Sprintf("include \"l%d.knut\"\n", i+1), 2)
+	}
+	big["l20.knut"] = "2020-01-01 price USD 1 CHF\n"
+	for _, a := range [][]string{{"check", "deep.knut"}, {"balance", "--color=false", "deep.knut"}, {"check", "l0.knut"}, {"print", "l0.knut"}, {"check", "zero.knut"}, {"check", strings.Repeat("../", 16) + "dev/zero"}} {
+		cs = append(cs, c14Case{Files: big, Args: a, Class: "extreme-input", Extreme: true})
+	}
 	ext("extreme-window", "balance", "--color=false", "--days", "--from", "0001-01-01", "--to", "9999-12-31", "j.knut")
 	ext("extreme-window", "portfolio", "returns", "-v", "CHF", "--days", "--from", "0001-01-01", "--to", "9999-12-31", "j.knut")
 	ext("extreme-window", "portfolio", "weights", "-v", "CHF", "--color=false", "--days", "--from", "0001-01-01", "--to", "9999-12-31", "j.knut")
@@ -320,13 +331,15 @@ func c14Run(e *core.Env) {
 	// stage keeps creating accounts while later stages read the registries); every command
 	// must end within 60 s (normal: well under a second) with exit 0 and a report
 	if e.Take() {
-		drv.Files(map[string]string{"stress.knut": c14StressJournal()})
+		files := c14StressFiles()
+		drv.Files(files)
 		reps := core.Pick(e, 3, 12)
 		for _, cmd := range [][]string{
 			{"balance", "--color=false", "-v", "CHF", "--remap", "Income|Expenses", "stress.knut"},
 			{"balance", "--color=false", "-v", "CHF", "--remap", "Assets", "-m", "2,Assets", "--months", "stress.knut"},
 			{"transcode", "-v", "CHF", "stress.knut"}, {"print", "stress.knut"}, {"check", "stress.knut"},
 			{"portfolio", "weights", "-v", "CHF", "--color=false", "--months", "stress.knut"}, {"portfolio", "returns", "-v", "CHF", "--months", "stress.knut"},
+			{"check", "multi.knut"}, {"balance", "--color=false", "--months", "multi.knut"},
 		} {
 			for i := 0; i < reps; i++ {
 				o := drv.RunBinaryFree(60*time.Second, cmd...)
@@ -449,6 +462,24 @@ func clipFiles(fs map[string]string) map[string]string {
 	return res
 }
 
+// c14StressFiles: the growing single-file journal and the same kind of journal split over
+// eight files with accruals in each.
+func c14StressFiles() map[string]string {
+	files := map[string]string{"stress.knut": c14StressJournal()}
+	var rootInc strings.Builder
+	rootInc.WriteString("2000-01-01 open Assets:Bank\n2000-01-01 open Assets:Prepaid\n2000-01-01 open Expenses:Rent\n")
+	for f := 0; f < 8; f++ {
+		fmt.Fprintf(&rootInc, "include \"acc%d.knut\"\n", f)
+		var fb strings.Builder
+		for k := 0; k < 300; k++ {
+			fmt.Fprintf(&fb, "@accrue monthly 2000-%02d-01 2001-%02d-28 Assets:Prepaid\n2000-%02d-%02d \"rent %d %d\"\nAssets:Bank Expenses:Rent %d CHF\n\n", 1+k%12, 1+(k+f)%12, 1+k%12, 1+k%28, f, k, 100+k)
+		}
+		files[fmt.Sprintf("acc%d.knut", f)] = fb.String()
+	}
+	files["multi.knut"] = rootInc.String()
+	return files
+}
+
 func c14StressJournal() string {
 	var b strings.Builder
 	b.WriteString("2000-01-01 open Equity:Opening\n2000-01-01 open Assets:Cash\n")
@@ -477,7 +508,7 @@ func c14Replay(e *core.Env, data json.RawMessage) (bool, string) {
 	drv := e.Driver()
 	drv.Horizon = 4000
 	if cs.Class == "stress" {
-		drv.Files(map[string]string{"stress.knut": c14StressJournal()})
+		drv.Files(c14StressFiles())
 		for i := 0; i < 12; i++ {
 			if o := drv.RunBinaryFree(60*time.Second, cs.Args...); o.Horizon || o.Panic != "" || o.Exit != 0 {
 				return true, fmt.Sprintf("run %d: exit %d killed=%v\n%s", i+1, o.Exit, o.Horizon, clip(o.Stderr, 1500))
